@@ -367,7 +367,8 @@ class C09(Suite):
             "127.0.0.12:NNNN, one port on several hosts, adjacent ports) with every second such session ending "
             "early; sessions may start a few ms apart (start-up cases: Tags still to be set up, preemptions confined to "
             "setup_tag); raw sessions also issue Get Attribute List requests for attribute numbers only they ask for "
-            "(oracle only, outside the model); the interleaving is whatever the OS/GIL produced under "
+            "(oracle only, outside the model); attribute-service cases read/replace whole array attributes with Get/Set "
+            "Attribute Single, Read Tag and Write Tag (one value over the whole array); the interleaving is whatever the OS/GIL produced under "
             "switch intervals 1e-6..5e-3 with injected yields, and is recorded.  evaluations = cases (concurrent "
             "runs); distinct_nontrivial = requests that were in flight together with a conflicting request "
             "(same tag, overlapping elements, at least one a write) of another session")
@@ -579,6 +580,48 @@ class C09(Suite):
                 "thread_name": rng.choice([None, "enip"]), "polite": rng.choice([0.0, 0.5]), "peers": None,
                 "seed": rng.randrange(1 << 30)}
 
+    def attr_case(self, rng, tier):
+        """2..4 sessions reading and replacing WHOLE array attributes: Get / Set Attribute Single on the numeric
+        address, Read Tag of all elements, Write Tag of one value over all elements.  Every write writes one value
+        over the whole array, so every read must return equal elements (a multi-element read never observes part
+        of a multi-element write)"""
+        nsess = rng.choice([2, 3, 4])
+        tags, k_auto = [], 0
+        for name in rng.sample(self.NAMES, rng.choice([1, 2])):
+            ty = rng.choice(["DINT", "INT", "SINT", "UDINT", "LINT"])
+            addr = [rng.choice([0x93, 300]), 1, rng.randint(1, 4)] if rng.random() < 0.4 else None
+            if addr and any(t.get("addr") == addr for t in tags):
+                addr = None
+            if addr is None:
+                k_auto += 1
+            L = rng.choice([2, 4, 6, 12])
+            tags.append({"name": name, "type": ty, "len": L, "addr": addr, "stripe": L, "pw": 0, "free0": L,
+                         "owners": nsess, "numeric": addr or [2, 1, k_auto]})     # the Message Router numbers Tags 1, 2, …
+        per = rng.choice([6, 10]) if tier == "quick" else rng.choice([12, 24, 40])
+        sessions = []
+        for sid in range(nsess):
+            frames = []
+            for k in range(per):
+                t = rng.choice(tags)
+                ty, L, siz = t["type"], t["len"], lc.SIZES[t["type"]]
+                npath = [["c", t["numeric"][0]], ["i", t["numeric"][1]], ["a", t["numeric"][2]]]
+                v = self.value(ty, sid, k)
+                kind = rng.choice(["gs", "gs", "ss", "ss", "rt", "wt"])
+                if kind == "gs":
+                    fr = {"op": "gs", "path": npath}
+                elif kind == "ss":
+                    fr = {"op": "ss", "path": npath, "data": list(lc.encode_vals(ty, [v] * L))}
+                elif kind == "rt":
+                    fr = {"op": "rt", "path": [["s", t["name"]]], "n": L}
+                else:
+                    fr = {"op": "wt", "path": [["s", t["name"]]], "ty": lc.TYPES[ty], "n": L, "vals": [v] * L}
+                frames.append(fr)
+            sessions.append({"client": "raw", "frames": frames, "chaos": None, "depth": rng.choice([1, 2]), "delay": 0})
+        return {"budget": 488, "tags": tags, "sessions": sessions, "si": rng.choice([1e-6, 1e-6, 1e-4]),
+                "yield": True, "fuzz": rng.choice([0.0, 0.01]), "nap": 0.003, "fuzz_store": rng.choice([0.0, 0.05]),
+                "thread_name": rng.choice([None, "enip"]), "polite": 0.0, "peers": None,
+                "seed": rng.randrange(1 << 30)}
+
     def storm_case(self, rng, tier):
         """2..4 sessions that send nothing but bundles, served by threads that all carry one name, with polite
         parser locks: the schedules in which one thread enters the shared parser exactly when another leaves it
@@ -643,6 +686,8 @@ class C09(Suite):
                 yield self.startup_case(rng, tier)
             if i % 10 == 3:
                 yield self.gal_case(rng, tier)
+            if i % 5 == 4:
+                yield self.attr_case(rng, tier)
             yield self.rand_case(rng, tier)
 
     def search_cases(self, tier, rng):
@@ -651,6 +696,7 @@ class C09(Suite):
             yield self.peer_case(rng, "thorough")
             yield self.startup_case(rng, "thorough")
             yield self.gal_case(rng, "thorough")
+            yield self.attr_case(rng, "thorough")
             yield self.rand_case(rng, "thorough")
 
     # ------------------------------------------------------------------ running the real thing
@@ -1160,7 +1206,7 @@ class C09(Suite):
                 if r["enip"] != 0 or not r["cip"]:
                     return f"session {sid} request #{k}: encapsulation status {r['enip']:#x} (parse failure)"
                 rep = lg.parse_reply(bytes.fromhex(r["cip"]))
-                want = {"rt": 0x4c, "rf": 0x52, "wt": 0x4d, "wf": 0x53, "mu": 0x0a, "gl": 0x03}[fr["op"]] | 0x80
+                want = {"rt": 0x4c, "rf": 0x52, "wt": 0x4d, "wf": 0x53, "mu": 0x0a, "gl": 0x03, "gs": 0x0e, "ss": 0x10}[fr["op"]] | 0x80
                 if rep is None or rep["svc"] != want:
                     return f"session {sid} request #{k}: reply service {rep and rep['svc']} is not the request's ({want:#x})"
                 if fr["op"] == "gl":
@@ -1198,7 +1244,12 @@ class C09(Suite):
             a, elem = spec.resolve(mm["path"])
             ty = spec.ty[a]
             start = elem + (mm.get("off", 0) // siz_of[a] if mm["op"] in ("rf", "wf") else 0)
-            if mm["op"] in ("wt", "wf"):
+            if mm["op"] == "ss":        # Set Attribute Single: the whole array, element encodings as sent
+                d_ = bytes(mm["data"])
+                writes.append((sid, k, j, a, 0, [d_[q:q + siz_of[a]] for q in range(0, len(d_), siz_of[a])]))
+            elif mm["op"] == "gs":      # Get Attribute Single: the whole array
+                reads.append((sid, k, j, a, 0, lg.split_elems(ty, mr["body"]) or []))
+            elif mm["op"] in ("wt", "wf"):
                 reqty = lc.CODE2NAME[mm["ty"]]
                 writes.append((sid, k, j, a, start, [spec.enc(ty, v, reqty) for v in mm["vals"]]))
             else:
@@ -1296,6 +1347,12 @@ class C09(Suite):
             return f"storage access on {x['addr']} for a request addressed to {a}"
         ty = spec.ty[a]
         siz = lc.SIZES[ty]
+        if mm["op"] in ("gs", "ss"):    # attribute services: ONE access to the whole array
+            kind = "r" if mm["op"] == "gs" else "w"
+            if x["kind"] != kind or (x["beg"], x["end"]) != (0, len(spec.arr[a])):
+                return (f"Get/Set Attribute Single made a storage {x['kind']} access to [{x['beg']},{x['end']}) "
+                        f"instead of ONE {kind} access to the whole array [0,{len(spec.arr[a])})")
+            return None
         start = elem + (mm.get("off", 0) // siz if mm["op"] in ("rf", "wf") else 0)
         kind = "r" if mm["op"] in ("rt", "rf") else "w"
         if x["kind"] != kind:
@@ -1344,6 +1401,8 @@ class C09(Suite):
         fz = "on" if (case.get("fuzz") or case.get("fuzz_store")) else "off"
         if kind == "random" and all(fr["op"] == "mu" for s_ in case["sessions"] for fr in s_["frames"]):
             kind = "bundle-storm"
+        elif kind == "random" and any(fr["op"] in ("gs", "ss") for s_ in case["sessions"] for fr in s_["frames"]):
+            kind = "attribute-services"
         elif kind == "random" and sum(1 for s_ in case["sessions"] for fr in s_["frames"] if fr["op"] == "gl") * 4 >= sum(
                 len(s_["frames"]) for s_ in case["sessions"]):
             kind = "get-attribute-list"
